@@ -1,5 +1,5 @@
 /- preservation of InvB: SetCallback (pre-check load, compare_exchange) -/
-import YaclibModel.Proofs.Coro
+import YaclibModel.Proofs.CoroB3
 namespace Yaclib.Coro
 
 theorem lt_of_getElem?_some {α} {l : List α} {p : Nat} {x : α} (h : l[p]? = some x) : p < l.length := by
@@ -46,5 +46,60 @@ theorem st_at_reg {w : Workload} {s : State} {op : Op} {rest : List Op} {p : Nat
   have hx : s.st[p]? = some s.st[p] := List.getElem?_eq_getElem hps
   have := hb.reg_phase p p s.st[p] hp hx
   rw [hx, this.mpr (Nat.le_refl p)]
+
+end Yaclib.Coro
+
+namespace Yaclib.Coro
+
+theorem selfDone_decided (k : AKind) : decided (selfDone k) = true := by cases k <;> rfl
+theorem selfDone_not_cell (k : AKind) (j : Nat) : selfDone k ≠ .wake (.cell j) := by cases k <;> simp [selfDone]
+theorem selfDone_regPos (k : AKind) : regPos (selfDone k) = none := by cases k <;> rfl
+theorem selfDone_fresh (k : AKind) : freshPc (selfDone k) = false := by cases k <;> rfl
+theorem selfDone_afterReg (k : AKind) : afterRegPc (selfDone k) = false := by cases k <;> rfl
+theorem selfDone_ne_susp (k : AKind) : selfDone k ≠ .susp := by cases k <;> simp [selfDone]
+theorem selfDone_ne_rdyL (k : AKind) (x : Obs) : selfDone k ≠ .rdyL x := by cases k <;> simp [selfDone]
+
+theorem setWord_cells_word (s : State) (j i : Nat) (wd : Word) :
+    ((s.setWord j wd).cells i).word = if i = j then wd else (s.cells i).word := by
+  simp only [State.setWord, upd]; split <;> simp_all
+
+theorem setWord_todo' (s : State) (j : Nat) (wd : Word) : (s.setWord j wd).todo = s.todo := rfl
+theorem setWord_w' (s : State) (j : Nat) (wd : Word) : (s.setWord j wd).w = s.w := rfl
+
+macro "invB_reg_auto" : tactic =>
+  `(tactic| (constructor <;> (try simp only [State.word, setWord_cells_word, setWord_todo', setWord_w'] at *) <;>
+      grind [inOp, decided, regPos, freshPc, afterRegPc, List.length_set, selfDone_decided, selfDone_not_cell,
+        selfDone_regPos, selfDone_fresh, selfDone_afterReg, selfDone_ne_susp, selfDone_ne_rdyL, inOp_selfDone,
+        Word.cbs, Word.isResult]))
+
+set_option maxHeartbeats 16000000 in
+/-- SetCallback returned false for the p-th awaited object, which is complete -/
+theorem invB_regFail {w : Workload} {s : State} {op : Op} {rest : List Op} {p j : Nat}
+    (hwf : w.WF) (ha : InvA w s) (hb : InvB w s) (ht : s.todo = op :: rest) (hp : regPos s.pc = some p)
+    (hj : op.cells[p]? = some j) (hres : (s.word j).isResult = true) : InvB w (regFail s op p) := by
+  obtain ⟨hst, hpl, hin⟩ := st_at_reg ha hb ht hp
+  have hwfo := op_wf hwf ha ht
+  have hlen := ha.st_len op rest ht hin
+  have hinj : ∀ q, op.cells[q]? = some j → q = p := fun q hq => wf_inj hwfo hq hj
+  have hpk := ha.pc_kind op rest ht
+  have hrk : regKind op.kind = true := by
+    cases hpc : s.pc <;> simp_all [regPos, pcKindOk]
+  have hns : isMulti op.kind = false → op.cells.length = 1 := fun hm => wf_single hwfo (awaitsCells_of_regKind hrk) hm
+  simp only [regFail, regFrom, afterReg]
+  split
+  · cases hb; invB_reg_auto
+  · split
+    · cases hb; invB_reg_auto
+    · rename_i hm
+      have hn1 := wf_single hwfo (awaitsCells_of_regKind hrk) (by simpa using hm)
+      have hp0 : p = 0 := by omega
+      subst hp0
+      have hst1 : s.st = [.todo] := by
+        match hs : s.st, hlen.trans hn1, hst with
+        | [a], _, h0 => simp at h0; rw [h0]
+      have hcells : ∀ j', j' ∈ op.cells → j' = j := fun j' hj' => mem_single hn1 hj hj'
+      split
+      · rename_i h0; simp [hst1] at h0
+      · cases hb; invB_reg_auto
 
 end Yaclib.Coro
